@@ -231,6 +231,8 @@ class CommandManager(object):
         self.queue_lock_map = {}
         self.results = {}
         self.pause = set([])
+        # True while the solver thread is held in wait_for_cmd.
+        self.paused = False
 
     @on_root_proc
     def add_interface(self, callable, block=True):
@@ -274,11 +276,17 @@ class CommandManager(object):
     def wait_for_cmd(self):
         ''' wait for command from any interface '''
         with self.qlock:
-            while self.pause:
+            while True:
                 with self.plock:
+                    if not self.pause:
+                        self.paused = False
+                        break
+                    self.paused = True
                     self.plock.notify_all()
-                self.qlock.wait()
+                # Commands queued since the last check run now; later ones
+                # notify qlock.
                 self.run_queued_commands()
+                self.qlock.wait()
 
     def sync_commands(self):
         ''' send the pending commands to all the procs in parallel run '''
@@ -315,7 +323,8 @@ class CommandManager(object):
 
     def wait(self):
         with self.plock:
-            self.plock.wait()
+            while not self.paused:
+                self.plock.wait()
 
     def cont(self):
         ''' continue after a pause command '''
@@ -324,9 +333,10 @@ class CommandManager(object):
             return
         with self.plock:
             self.pause.remove(threading.current_thread().ident)
-            self.plock.notify()
-            with self.qlock:
-                self.qlock.notify_all()
+        # The solver thread takes qlock and then plock, so do not hold plock
+        # while taking qlock.
+        with self.qlock:
+            self.qlock.notify_all()
 
     def get_result(self, lock_id):
         ''' get the result of a previously queued command '''
@@ -440,6 +450,8 @@ class CommandManager(object):
                     self.queue_lock_map[lock_id] = lock
                     self.queue_dict[lock_id] = (meth, args, kwargs)
                     self.queue.append(lock_id)
+                    # A paused solver runs queued commands when woken up.
+                    self.qlock.notify_all()
                 logger.debug('controller: dispatch(%d): %s %s %s'%(
                             lock_id, meth, args, kwargs))
                 return str(lock_id)
